@@ -260,6 +260,95 @@ Definition other_registry : list (string * string) := [
   ("pkg/evaluator.var#time:1", "default seed of RandSource; replaced by --rand-seed (main.go) and by the harness")
 ].
 
+(* ================================================================== *)
+(* Package-level variables (regenerated from /repo): state that outlives a
+   run.  Every variable of reference type, and every other variable that is
+   assigned after its declaration, must be registered here with the SAME
+   usage flags and a reason why it carries nothing from one run to the next
+   in the same process; a new variable, or a variable that starts to be
+   written, breaks C08_all_sites_covered.  (The reasons are prose, the flags
+   are what go/types sees of direct stores; aliases are not followed — the
+   harness's pristine-process comparison is the dynamic counterpart.) *)
+Definition state_registry : list (string * string * string) := [
+  ("pkg/lexer.keywords", "ref", "lookup table, filled by its declaration, only read");
+  ("pkg/lexer.tokenStrings", "ref", "lookup table, filled by its declaration, only read");
+  ("pkg/parser.ANY_TYPE", "ref", "type constant compared by identity; never stored through (no written flag)");
+  ("pkg/parser.BOOL_TYPE", "ref", "type constant compared by identity; never stored through (no written flag)");
+  ("pkg/parser.EMPTY_ARRAY", "ref", "type constant compared by identity; never stored through (no written flag)");
+  ("pkg/parser.EMPTY_MAP", "ref", "type constant compared by identity; never stored through (no written flag)");
+  ("pkg/parser.GENERIC_ARRAY", "ref", "type constant compared by identity; never stored through (no written flag)");
+  ("pkg/parser.GENERIC_MAP", "ref", "type constant compared by identity; never stored through (no written flag)");
+  ("pkg/parser.NONE_TYPE", "ref", "type constant compared by identity; never stored through (no written flag)");
+  ("pkg/parser.NUM_TYPE", "ref", "type constant compared by identity; never stored through (no written flag)");
+  ("pkg/parser.STRING_TYPE", "ref", "type constant compared by identity; never stored through (no written flag)");
+  ("pkg/parser.operatorStrings", "ref", "lookup table, filled by its declaration, only read");
+  ("pkg/parser.precedences", "ref", "lookup table, filled by its declaration, only read");
+  ("pkg/parser.typeNameStrings", "ref", "lookup table, filled by its declaration, only read");
+  ("pkg/evaluator.ErrAnyConversion", "ref", "error sentinel, never reassigned, compared with errors.Is");
+  ("pkg/evaluator.ErrAssignmentTarget", "ref", "error sentinel, never reassigned, compared with errors.Is");
+  ("pkg/evaluator.ErrBadArguments", "ref", "error sentinel, never reassigned, compared with errors.Is");
+  ("pkg/evaluator.ErrBadRepetition", "ref", "error sentinel, never reassigned, compared with errors.Is");
+  ("pkg/evaluator.ErrBounds", "ref", "error sentinel, never reassigned, compared with errors.Is");
+  ("pkg/evaluator.ErrIndexValue", "ref", "error sentinel, never reassigned, compared with errors.Is");
+  ("pkg/evaluator.ErrInternal", "ref", "error sentinel, never reassigned, compared with errors.Is");
+  ("pkg/evaluator.ErrMapKey", "ref", "error sentinel, never reassigned, compared with errors.Is");
+  ("pkg/evaluator.ErrOperation", "ref", "error sentinel, never reassigned, compared with errors.Is");
+  ("pkg/evaluator.ErrPanic", "ref", "error sentinel, never reassigned, compared with errors.Is");
+  ("pkg/evaluator.ErrRangeType", "ref", "error sentinel, never reassigned, compared with errors.Is");
+  ("pkg/evaluator.ErrRangevalue", "ref", "error sentinel, never reassigned, compared with errors.Is");
+  ("pkg/evaluator.ErrSlice", "ref", "error sentinel, never reassigned, compared with errors.Is");
+  ("pkg/evaluator.ErrStopped", "ref", "error sentinel, never reassigned, compared with errors.Is");
+  ("pkg/evaluator.ErrTest", "ref", "error sentinel, never reassigned, compared with errors.Is");
+  ("pkg/evaluator.ErrType", "ref", "error sentinel, never reassigned, compared with errors.Is");
+  ("pkg/evaluator.ErrUnknownNode", "ref", "error sentinel, never reassigned, compared with errors.Is");
+  ("pkg/evaluator.ErrVarNotSet", "ref", "error sentinel, never reassigned, compared with errors.Is");
+  ("pkg/evaluator.RandSource", "ref,written", "the PRNG: the property is stated relative to its seed; written only by main.go (--rand-seed) and by the harness before every run");
+  ("pkg/evaluator.clearDecl", "ref", "built-in signature; parser.newParser copies each FuncDefStmt (fd := *funcDef) before it marks isCalled");
+  ("pkg/evaluator.dashDecl", "ref", "built-in signature; parser.newParser copies each FuncDefStmt (fd := *funcDef) before it marks isCalled");
+  ("pkg/evaluator.delDecl", "ref", "built-in signature; parser.newParser copies each FuncDefStmt (fd := *funcDef) before it marks isCalled");
+  ("pkg/evaluator.ellipseDecl", "ref", "built-in signature; parser.newParser copies each FuncDefStmt (fd := *funcDef) before it marks isCalled");
+  ("pkg/evaluator.endswithDecl", "ref", "built-in signature; parser.newParser copies each FuncDefStmt (fd := *funcDef) before it marks isCalled");
+  ("pkg/evaluator.fontDecl", "ref", "built-in signature; parser.newParser copies each FuncDefStmt (fd := *funcDef) before it marks isCalled");
+  ("pkg/evaluator.gridnDecl", "ref", "built-in signature; parser.newParser copies each FuncDefStmt (fd := *funcDef) before it marks isCalled");
+  ("pkg/evaluator.hasDecl", "ref", "built-in signature; parser.newParser copies each FuncDefStmt (fd := *funcDef) before it marks isCalled");
+  ("pkg/evaluator.hslDecl", "ref", "built-in signature; parser.newParser copies each FuncDefStmt (fd := *funcDef) before it marks isCalled");
+  ("pkg/evaluator.indexDecl", "ref", "built-in signature; parser.newParser copies each FuncDefStmt (fd := *funcDef) before it marks isCalled");
+  ("pkg/evaluator.joinDecl", "ref", "built-in signature; parser.newParser copies each FuncDefStmt (fd := *funcDef) before it marks isCalled");
+  ("pkg/evaluator.lenDecl", "ref", "built-in signature; parser.newParser copies each FuncDefStmt (fd := *funcDef) before it marks isCalled");
+  ("pkg/evaluator.lowerDecl", "ref", "built-in signature; parser.newParser copies each FuncDefStmt (fd := *funcDef) before it marks isCalled");
+  ("pkg/evaluator.numArrayType", "ref", "type constant compared by identity; never stored through (no written flag)");
+  ("pkg/evaluator.polyDecl", "ref", "built-in signature; parser.newParser copies each FuncDefStmt (fd := *funcDef) before it marks isCalled");
+  ("pkg/evaluator.printDecl", "ref", "built-in signature; parser.newParser copies each FuncDefStmt (fd := *funcDef) before it marks isCalled");
+  ("pkg/evaluator.rand1Decl", "ref", "built-in signature; parser.newParser copies each FuncDefStmt (fd := *funcDef) before it marks isCalled");
+  ("pkg/evaluator.randDecl", "ref", "built-in signature; parser.newParser copies each FuncDefStmt (fd := *funcDef) before it marks isCalled");
+  ("pkg/evaluator.readDecl", "ref", "built-in signature; parser.newParser copies each FuncDefStmt (fd := *funcDef) before it marks isCalled");
+  ("pkg/evaluator.replaceDecl", "ref", "built-in signature; parser.newParser copies each FuncDefStmt (fd := *funcDef) before it marks isCalled");
+  ("pkg/evaluator.reprDecl", "ref", "built-in signature; parser.newParser copies each FuncDefStmt (fd := *funcDef) before it marks isCalled");
+  ("pkg/evaluator.sleepDecl", "ref", "built-in signature; parser.newParser copies each FuncDefStmt (fd := *funcDef) before it marks isCalled");
+  ("pkg/evaluator.splitDecl", "ref", "built-in signature; parser.newParser copies each FuncDefStmt (fd := *funcDef) before it marks isCalled");
+  ("pkg/evaluator.sprintDecl", "ref", "built-in signature; parser.newParser copies each FuncDefStmt (fd := *funcDef) before it marks isCalled");
+  ("pkg/evaluator.startswithDecl", "ref", "built-in signature; parser.newParser copies each FuncDefStmt (fd := *funcDef) before it marks isCalled");
+  ("pkg/evaluator.str2boolDecl", "ref", "built-in signature; parser.newParser copies each FuncDefStmt (fd := *funcDef) before it marks isCalled");
+  ("pkg/evaluator.str2numDecl", "ref", "built-in signature; parser.newParser copies each FuncDefStmt (fd := *funcDef) before it marks isCalled");
+  ("pkg/evaluator.stringArrayType", "ref", "type constant compared by identity; never stored through (no written flag)");
+  ("pkg/evaluator.testDecl", "ref", "built-in signature; parser.newParser copies each FuncDefStmt (fd := *funcDef) before it marks isCalled");
+  ("pkg/evaluator.trimDecl", "ref", "built-in signature; parser.newParser copies each FuncDefStmt (fd := *funcDef) before it marks isCalled");
+  ("pkg/evaluator.typeofDecl", "ref", "built-in signature; parser.newParser copies each FuncDefStmt (fd := *funcDef) before it marks isCalled");
+  ("pkg/evaluator.upperDecl", "ref", "built-in signature; parser.newParser copies each FuncDefStmt (fd := *funcDef) before it marks isCalled");
+  ("pkg/cli/svg.defaultAttr", "ref", "default attribute values, only compared against");
+  ("pkg/cli/svg.defaultTextAttr", "ref", "default attribute values, only compared against");
+  ("main.content", "ref", "command-line plumbing outside a run");
+  ("main.errBadWriteFlag", "ref", "error sentinel, never reassigned, compared with errors.Is");
+  ("main.errNotFormatted", "ref", "error sentinel, never reassigned, compared with errors.Is");
+  ("main.errParse", "ref", "error sentinel, never reassigned, compared with errors.Is");
+  ("main.version", "value,written", "build version string, set once at start-up from the build info; printed by --version only")
+].
+
+Definition state_covered (s : string * string) : bool :=
+  existsb (fun r => String.eqb (fst (fst r)) (fst s) && String.eqb (snd (fst r)) (snd s)) state_registry.
+Definition state_still_there (r : string * string * string) : bool :=
+  existsb (fun s => String.eqb (fst (fst r)) (fst s)) package_state_sites.
+
 Definition site_ids : list string := map (fun s => fst (fst s)) map_range_sites.
 Definition reg_ids : list string := map c_id registry.
 Definition mem_id (l : list string) (id : string) : bool := existsb (String.eqb id) l.
@@ -268,14 +357,16 @@ Definition mem_id (l : list string) (id : string) : bool := existsb (String.eqb 
    /repo) is registered — a new site breaks this proof *)
 Theorem C08_all_sites_covered :
   forallb (mem_id reg_ids) site_ids = true /\
-  forallb (mem_id (map fst other_registry)) (map fst other_nondet_sites) = true.
-Proof. vm_compute. split; reflexivity. Qed.
+  forallb (mem_id (map fst other_registry)) (map fst other_nondet_sites) = true /\
+  forallb state_covered package_state_sites = true.
+Proof. vm_compute. repeat split; reflexivity. Qed.
 Print Assumptions C08_all_sites_covered.
 
 (* … and no registered site has disappeared (stale theorems are noticed) *)
-Theorem C08_registry_not_stale : forallb (mem_id site_ids) reg_ids = true /\ NoDup reg_ids.
+Theorem C08_registry_not_stale :
+  forallb (mem_id site_ids) reg_ids = true /\ forallb state_still_there state_registry = true /\ NoDup reg_ids.
 Proof.
-  split; [vm_compute; reflexivity|].
+  split; [vm_compute; reflexivity|]. split; [vm_compute; reflexivity|].
   unfold reg_ids, registry. cbn [map c_id].
   repeat (constructor; [cbn [In]; intuition discriminate|]). constructor.
 Qed.
